@@ -28,11 +28,11 @@ type prefixError struct {
 }
 
 func (p prefixError) Wrap(reason string, errVar string) string {
-	return `fmt.Errorf("` + p.prefix + ": " + reason + `: %w", ` + errVar + `)`
+	return `fmt.Errorf("` + goFormatBody(p.prefix) + ": " + reason + `: %w", ` + errVar + `)`
 }
 
 func (p prefixError) New(reason string) string {
-	return `errors.New("` + p.prefix + ": " + reason + `")`
+	return `errors.New("` + goStringBody(p.prefix) + ": " + reason + `")`
 }
 
 type wrappedError struct {
